@@ -9,6 +9,7 @@ import (
 	"flag"
 	"fmt"
 	"os"
+	"path/filepath"
 	"strconv"
 
 	"verif/internal/ev"
@@ -61,8 +62,25 @@ func main() {
 		if fs.NArg() > 1 {
 			nv, _ = strconv.Atoi(fs.Arg(1))
 		}
-		e := &ev.Evidence{PropertyID: id, Tier: *tier, Seed: *seed, Level: "exploration",
-			Coverage:   map[string]any{"evaluations": 0, "distinct_nontrivial": 0, "rule": "the monitor process ended abnormally; nothing can be claimed", "samples": []any{msg}},
+		// what is known after an abnormal end: the cases that were in flight (each worker slot writes
+		// its current case to replays/<ID>/current-<slot>.json before running it)
+		samples := []any{msg}
+		inflight, _ := filepath.Glob(filepath.Join(ev.Root, "replays", id, "current-*.json"))
+		for i, f := range inflight {
+			if i >= 3 {
+				break
+			}
+			if b, err := os.ReadFile(f); err == nil {
+				var v any
+				if json.Unmarshal(b, &v) == nil {
+					samples = append(samples, map[string]any{"in_flight_when_the_monitor_ended": v})
+				}
+			}
+		}
+		e := &ev.Evidence{PropertyID: id, Tier: *tier, Seed: *seed, Level: "other",
+			Coverage: map[string]any{"evaluations": len(inflight), "distinct_nontrivial": 0,
+				"explanation": "the monitor process ended abnormally (" + msg + "); evaluations counts only the cases that were in flight at that moment, nothing else can be claimed from this run",
+				"rule":        "none: abnormal end", "samples": samples},
 			Violations: nv}
 		e.Write()
 		os.Exit(0)
